@@ -102,6 +102,13 @@ def gen_dataset_cfg(rng, flavor='general', big=False):
                       'n_files': rng.choice([1, 1, 2]), 'ext': rng.choice(['.dat', '.bin']),
                       'offset': rng.choice([0, 0, 8]), 'tail': rng.randint(1, 20),
                       'permute_map': rng.random() < 0.6}
+        fmt = rng.choice(['flat', 'flat', 'flat', 'npy', 'cbin'])
+        if fmt == 'cbin':
+            cfg['raw'].update({'format': 'cbin', 'dtype': 'int16', 'offset': 0, 'n_files': 1,
+                               'cbin_chunk': rng.choice([7, 20, 100]),
+                               'n_threads': rng.randint(1, 3)})
+        elif fmt == 'npy':
+            cfg['raw'].update({'format': 'npy', 'offset': 0, 'n_files': 1})
     p['sclusters'] = rng.random() < 0.7
     cfg['ties'] = rng.random() < 0.3
     if flavor == 'general':
@@ -112,6 +119,8 @@ def gen_dataset_cfg(rng, flavor='general', big=False):
                     cfg['names'][fam] = 'alf'
             if cfg['names']['times'] == 'alf':
                 p['samples_file'] = rng.random() < 0.5
+            if rng.random() < 0.4:
+                cfg['alf_label'] = rng.choice(['probe00', 'x1'])
         cfg['sparse'] = rng.random() < 0.35
         if cfg['sparse']:
             cfg['nloc_t'] = rng.randint(2, nc)
@@ -387,7 +396,14 @@ def gen_curation_ops(rng, n):
 # --------------------------------------------------------------------------------------------------
 
 def _name(cfg, fam):
-    return NAMES[fam][0 if cfg['names'].get(fam, 'ks') == 'ks' else 1]
+    if cfg['names'].get(fam, 'ks') == 'ks':
+        return NAMES[fam][0]
+    name = NAMES[fam][1]
+    label = cfg.get('alf_label')
+    if label:   # ALF part name before the extension: spikes.times.probe00.npy
+        stem, ext = name.rsplit('.', 1)
+        name = '%s.%s.%s' % (stem, label, ext)
+    return name
 
 
 def _vec(cfg, fam, arr):
@@ -405,9 +421,10 @@ def write_dataset(cfg, g, d):
     if cfg['names']['times'] == 'ks':
         save('spike_times.npy', _vec(cfg, 'times', g.samples.astype(dts['times'])))
     else:
-        save('spikes.times.npy', _vec(cfg, 'times', g.samples / g.sr))
+        save(_name(cfg, 'times'), _vec(cfg, 'times', g.samples / g.sr))
         if p.get('samples_file'):
-            save('spikes.samples.npy', g.samples.astype(dts['times']))
+            lab = ('.' + cfg['alf_label']) if cfg.get('alf_label') else ''
+            save('spikes.samples%s.npy' % lab, g.samples.astype(dts['times']))
     save(_name(cfg, 'stemplates'), _vec(cfg, 'stemplates', g.stemplates.astype(dts['ids'])))
     if p['sclusters']:
         sc = g.sclusters
@@ -447,7 +464,21 @@ def write_dataset(cfg, g, d):
     if g.reordered is not None:
         save('spike_times_reordered.npy', g.reordered)
     dat_paths = []
-    if g.raw is not None:
+    if g.raw is not None and cfg['raw'].get('format', 'flat') == 'npy':
+        np.save(d / 'raw.npy', g.raw)
+        dat_paths.append('raw.npy')
+    elif g.raw is not None and cfg['raw'].get('format', 'flat') == 'cbin':
+        import mtscomp
+        tmp = d / 'raw_tmp.bin'
+        tmp.write_bytes(np.ascontiguousarray(g.raw).tobytes())
+        mtscomp.compress(tmp, d / 'raw.cbin', d / 'raw.ch', sample_rate=g.sr,
+                         n_channels=g.raw.shape[1], dtype=g.raw.dtype,
+                         chunk_duration=cfg['raw'].get('cbin_chunk', 50) / g.sr,
+                         n_threads=cfg['raw'].get('n_threads', 2), check_after_compress=False,
+                         quiet=True)
+        tmp.unlink()
+        dat_paths.append('raw.cbin')
+    elif g.raw is not None:
         r = cfg['raw']
         n = g.raw.shape[0]
         cuts = [n] if r['n_files'] == 1 else [n // 2, n - n // 2]
